@@ -8,13 +8,15 @@ import z3
 from . import mir as MIR, sym as SYM, models as MODELS, rustdefs
 
 VERIF = "/verif"
-CACHE = os.path.join(VERIF, ".cache", "mir")
+# development aid only (tools/mtest.py against a scratch worktree while /repo is busy); the registered commands never set it
+REPO = os.environ.get("MIRSYM_DEV_REPO", "/repo")
+CACHE = os.path.join(VERIF, ".cache", "mir" if REPO == "/repo" else "mir-dev-" + hashlib.sha256(REPO.encode()).hexdigest()[:8])
 DUMP = os.path.join(CACHE, "saito_core.mir")
 
 
 def source_hash():
     h = hashlib.sha256()
-    files = sorted(glob.glob("/repo/saito-core/src/**/*.rs", recursive=True)) + ["/repo/saito-core/Cargo.toml", "/repo/Cargo.lock"]
+    files = sorted(glob.glob(REPO + "/saito-core/src/**/*.rs", recursive=True)) + [REPO + "/saito-core/Cargo.toml", REPO + "/Cargo.lock"]
     for f in files:
         h.update(f.encode())
         h.update(open(f, "rb").read())
@@ -37,7 +39,7 @@ def ensure_dump(log=None):
     env["CARGO_NET_OFFLINE"] = "true"
     env.pop("RUSTFLAGS", None)
     p = subprocess.run(["cargo", "+nightly", "rustc", "--offline", "--lib", "--", "-Zunpretty=mir", "-C", "debug-assertions=off", "-C", "overflow-checks=on"],
-                       cwd="/repo/saito-core", env=env, stdout=subprocess.PIPE, stderr=subprocess.PIPE, text=True)
+                       cwd=REPO + "/saito-core", env=env, stdout=subprocess.PIPE, stderr=subprocess.PIPE, text=True)
     if p.returncode != 0 or len(p.stdout) < 100000:
         if log:
             log.write("MIR dump failed:\n" + p.stderr[-4000:])
@@ -78,7 +80,7 @@ class Ctx:
     def __init__(self, tier):
         self.tier = tier
         self.bodies, self.consts = MIR.parse_mir(DUMP)
-        self.structs, self.enums = rustdefs.parse_defs()
+        self.structs, self.enums = rustdefs.parse_defs(REPO + "/saito-core/src")
         self.src_lines = {}
 
     def body(self, pattern, nargs=None):
